@@ -8,9 +8,9 @@ CLI_PROPS = {"C13", "C14", "C15", "C16", "C17", "C18", "C19", "C20"}
 
 # which sources feed which property (order = order of execution)
 PLAN = {
-    "C01": ["exprparens", "trivia", "calls", "nest", "types", "block", "strings", "literals", "corpus"],
+    "C01": ["exprparens", "trivia", "calls", "nest", "types", "block", "strings", "literals", "corpus", "sortrequires"],
     "C02": ["exprparens", "trivia", "calls", "nest", "types", "block", "corpus"],
-    "C03": ["trivia", "block", "corpus"],
+    "C03": ["trivia", "block", "exprparens", "corpus"],
     "C04": ["strings", "literals", "corpus"],
     "C05": ["exprparens"],
     "C08": ["block", "sortrequires", "corpus"],
@@ -19,7 +19,7 @@ PLAN = {
     "C12": ["sortrequires", "corpus"],
     "C10": ["layout", "trivia", "corpus"],
     "C06": ["exprparens", "trivia", "calls", "nest", "types", "block", "sortrequires", "corpus"],
-    "C07": ["nest", "exprparens", "trivia", "calls", "block", "strings", "literals", "corpus"],
+    "C07": ["nest", "exprparens", "trivia", "calls", "block", "strings", "literals", "corpus", "invalid"],
 }
 
 LUAU_CTX = {"compound", "ifexp_then", "ifexp_else"}
@@ -194,6 +194,20 @@ def src_nest(tier, seed):
     return cases, st
 
 
+def src_invalid(tier, seed):
+    """C07: text that does not parse (a template with one unbalanced token), with and without degenerate ranges."""
+    raw, st = tlc_generate("MC_Invalid", "MC_Invalid_%s.cfg" % tier, "g_invalid_" + tier)
+    raw.sort(key=lambda c: json.dumps(c, sort_keys=True))
+    cases = []
+    for i, c in enumerate(raw):
+        c["id"] = "iv%d" % i
+        c["sweep"] = {"column_width": [120, 20]}
+        c["layout"]["profile"] = "spaced"
+        c["want"] = []
+        cases.append(c)
+    return cases, st
+
+
 def src_types(tier, seed):
     raw, st = tlc_generate("MC_Types", "MC_Types_%s.cfg" % tier, "g_types_" + tier)
     raw.sort(key=lambda c: c["src"])
@@ -247,6 +261,7 @@ def src_literals(tier, seed):
 
 SOURCES = {
     "types": src_types,
+    "invalid": src_invalid,
     "nest": src_nest,
     "calls": src_calls,
     "sortrequires": src_sortrequires,
